@@ -246,7 +246,10 @@ Section WithFile.
                       | NoMem => InitDone ST_SYSTEM here
                       | OOB => InitUB UB_OOB_RANGE
                       | Ok m' =>
-                          init_loop fuel' oracle m' offs cap (segidx + 1) (flatpos + size)%Z
+                          (* ++segidx; flatpos += size; *)
+                          if in_off (flatpos + size)
+                          then init_loop fuel' oracle m' offs cap (segidx + 1) (flatpos + size)%Z
+                          else InitUB UB_OVERFLOW
                       end
         end
     end.
